@@ -7,7 +7,7 @@ Space N x construction histories: for every valid shape/configuration within the
  (b) 4 renamings (reversed, rotated, one shared prefix with equal names, library auto-names);
  (c) for every node with >= 2 leaving links every factor in {1e-3, 1/2, 2, 7} on its turn rates.
 Oracle (metamorphic, real code on both sides): per element (matched by spec identity) identical
-next states (bitwise for renaming, 1e-12 for reordering and scaling); recovered inflow share
+next states (1e-12 relative); recovered inflow share
 q_{m,0} / sum q_{mu,0} == beta_m / sum beta_mu at every node with >= 2 leaving links.
 """
 from __future__ import annotations
@@ -163,7 +163,7 @@ def check_spec(spec: NetSpec, label, st: Stats, plan):
             for (vl, v), ref in zip(vecs, base):
                 got = np_step(spec, v, P, built=build(spec, names=names))[0]
                 st.inc("executions")
-                msg = nexts_equal(got, ref, 0)
+                msg = nexts_equal(got, ref, 1e-12)
                 if msg:
                     problems.append((f"C14/renaming/{rname}/numpy", f"{msg} (original names) at {vl}", case))
                     break
@@ -172,7 +172,9 @@ def check_spec(spec: NetSpec, label, st: Stats, plan):
             got = eval_layout(F, lay0, [v for _, v in dvecs])
             st.inc("executions", len(dvecs))
             for (vl, v), g, r in zip(dvecs, got, base_sx):
-                bad = [s for s in r if not (g[s] == r[s] or (g[s] != g[s] and r[s] != r[s]))]
+                # not bitwise: with equal names the library (fix F9) compiles without common-subexpression
+                # elimination, which may change the last bit of a result
+                bad = [s for s in r if not (close(g[s], r[s], 1e-12) or (g[s] != g[s] and r[s] != r[s]))]
                 if bad:
                     problems.append((f"C14/renaming/{rname}/SX", f"result {bad[0]} = {g[bad[0]]!r} vs {r[bad[0]]!r} at {vl}", case))
                     break
@@ -271,7 +273,7 @@ def explore(tier, seed, nproc):
     cov = {"bounds": bounds, "networks": nets, "factors": FACTORS,
            "rule": "a state is one (network program, construction order | renaming | scaled turn rates); each related network "
                    "is built through the real API and stepped; per-element next states are compared with the base network"}
-    assumptions = ["orders: all permutations for <=6 calls, else within 2 transpositions",
+    assumptions = ["orders: all permutations for <=6 calls, else within 2 transpositions", "tolerance 1e-12 relative (also for renaming: equal names switch off CasADi cse, which can change the last bit)",
                    "equal-name renaming is checked on NumPy and through the positional (compact 2) function only"]
     return st, cov, assumptions
 
